@@ -437,6 +437,34 @@ Qed.
 Lemma blen_app (a : list N) x : blen (a ++ [x]) = blen a + 1.
 Proof. unfold blen. rewrite app_length. simpl. lia. Qed.
 
+Lemma accept_rel cf s1 m1 off hl body s2 rc m2 erc :
+  Rel cf s1 m1 -> hl < 256 -> blen body < 256 ->
+  accept cf s1 off (mkhdr hl body) body = (s2, rc) -> m_accept m1 hl body = (m2, erc) ->
+  Rel cf s2 m2 /\ rc = erc /\ m_txdead m2 = m_txdead m1.
+Proof.
+  intros [Ro1 Rn1 Rq1 Rg1 Rs1 Rm1 Rt1] P1 BL A M.
+  unfold accept in A. unfold m_accept in M.
+  rewrite (mkhdr_has hl body sn_flag P1 eq_refl) in A.
+  rewrite (mkhdr_len_land hl body P1 BL) in A.
+  change (N.land (mkhdr hl body) 3) with (llid (mkhdr hl body)) in A.
+  assert (LL : llid (mkhdr hl body) = llid hl) by (unfold llid; apply mkhdr_land; auto).
+  rewrite LL in A. rewrite Rn1 in M.
+  destruct (Bool.eqb (has hl sn_flag) (nesn s1)) eqn:New.
+  - destruct (blen body =? 0) eqn:Z; simpl negb in *; cbv iota in A; simpl andb in M; cbv iota in M.
+    + inversion A; subst; clear A. inversion M; subst; clear M. simpl. split; [|split]; auto.
+      constructor; simpl; auto; try congruence; try (intros D; apply (TxRel_frame s1 m1); auto).
+    + destruct (llid hl =? 0) eqn:L0; simpl negb in *; cbv iota in A, M; inversion A; subst; clear A;
+        inversion M; subst; clear M; simpl.
+      * split; [|split]; auto.
+        constructor; simpl; auto; try congruence; try (intros D; apply (TxRel_frame s1 m1); auto).
+      * split; [|split]; auto.
+        constructor; simpl; auto; try congruence; try (intros D; apply (TxRel_frame s1 m1); auto).
+        -- rewrite map_app, Rq1. reflexivity.
+        -- apply Forall_app. split; auto. constructor; auto. unfold lenok. simpl. apply mkhdr_len; auto.
+  - inversion A; subst; clear A. inversion M; subst; clear M. split; [|split]; auto.
+    constructor; auto.
+Qed.
+
 Lemma step_rel cf s m o s' r :
   Rel cf s m -> step cf s o = (s', r) -> exists m', mstep m o r = (Ok, m') /\ Rel cf s' m'.
 Proof.
@@ -525,42 +553,14 @@ Proof.
     rewrite mkhdr_has in AB by auto.
     destruct (m_ack m (has hl nesn_flag)) as [m1 etc] eqn:MA.
     destruct (ack_bit_rel cf s m _ s1 tc m1 etc R AB MA) as (R1 & TC).
-    pose proof R1 as [Ro1 Rn1 Rq1 Rg1 Rs1 Rm1 Rt1].
     assert (BL : blen body < 256) by lia.
-    rewrite (mkhdr_has hl body sn_flag P1 eq_refl) in H.
-    rewrite (mkhdr_len_land hl body P1 BL) in H.
-    change (N.land (mkhdr hl body) 3) with (llid (mkhdr hl body)) in H.
-    assert (LL : llid (mkhdr hl body) = llid hl) by (unfold llid; apply mkhdr_land; auto).
-    rewrite LL in H.
-    simpl mstep. rewrite MA. rewrite Rn1.
-    (* the state and monitor after the acceptance decision *)
-    match type of H with
-    | (let '(s2, rc) := ?X in _) = _ => destruct X as [s2 rc] eqn:ACC
-    end.
+    destruct (accept cf s1 off (mkhdr hl body) body) as [s2 rc] eqn:ACC.
+    destruct (m_accept m1 hl body) as [m2 erc] eqn:MACC.
+    destruct (accept_rel cf s1 m1 off hl body s2 rc m2 erc R1 P1 BL ACC MACC) as (R2 & RC & D2).
     destruct (next_transmit cf s2) as [s3 [[sz h] b]] eqn:NT. inversion H; subst; clear H.
-    match goal with
-    | |- context [check_resp t_nesn_rx ?M2 _ _ _] => set (m2 := M2)
-    end.
-    assert (R2 : Rel cf s2 m2 /\ rc = (if Bool.eqb (has hl sn_flag) (nesn s1) && negb (blen body =? 0) then 1 else 0)
-                 /\ m_txdead m2 = m_txdead m1).
-    { unfold m2. destruct (Bool.eqb (has hl sn_flag) (nesn s1)) eqn:New.
-      - destruct (blen body =? 0) eqn:Z; simpl negb in *; cbv iota in ACC.
-        + inversion ACC; subst; clear ACC. simpl. split; [|split]; auto.
-          constructor; simpl; auto; try congruence. rewrite Rn1; auto.
-          intros D. apply (TxRel_frame s1 m1); auto.
-        + destruct (llid hl =? 0) eqn:L0; simpl negb in *; cbv iota in ACC; inversion ACC; subst; clear ACC; simpl.
-          * split; [|split]; auto. constructor; simpl; auto; try congruence. rewrite Rn1; auto.
-            intros D. apply (TxRel_frame s1 m1); auto.
-          * split; [|split]; auto. constructor; simpl; auto; try congruence.
-            -- rewrite Rn1; auto.
-            -- rewrite map_app, Rq1. reflexivity.
-            -- apply Forall_app. split; auto. constructor; auto. unfold lenok. simpl. apply mkhdr_len; auto.
-            -- intros D. apply (TxRel_frame s1 m1); auto.
-      - inversion ACC; subst; clear ACC. simpl. auto. }
-    destruct R2 as (R2 & RC & D2).
     destruct (next_transmit_rel cf s2 m2 s' sz h b t_nesn_rx R2 NT) as (m3 & C & R3).
-    rewrite C. pose proof (check_resp_txdead _ _ _ _ _ _ _ C) as D3.
-    rewrite RC, N.eqb_refl. simpl negb. cbv iota.
+    simpl mstep. rewrite MA, MACC, C. pose proof (check_resp_txdead _ _ _ _ _ _ _ C) as D3.
+    rewrite N.eqb_refl. simpl negb. cbv iota.
     unfold tc_ok. destruct (m_txdead m3) eqn:D; simpl.
     + exists m3; auto.
     + rewrite (TC ltac:(congruence)), N.eqb_refl. simpl. exists m3; auto.
@@ -594,4 +594,188 @@ Proof.
     destruct (next_transmit cf s) as [s1 [[sz h] b]] eqn:NT. inversion H; subst; clear H.
     destruct (next_transmit_rel cf s m s' sz h b t_nesn_nt R NT) as (m' & C & R').
     exists m'. simpl. rewrite C. simpl. auto.
+Qed.
+
+Lemma grun_model cf s m g ops :
+  Rel cf s m -> exists m' g', grun m g (run cf s ops) = Some (m', g') /\ Rel cf (final cf s ops) m'.
+Proof.
+  revert s m g; induction ops as [|o t IH]; intros s m g R; simpl.
+  - eauto.
+  - destruct (step cf s o) as [s' r] eqn:E. simpl.
+    destruct (step_rel cf s m o s' r R E) as (m' & M & R'). rewrite M. apply IH. exact R'.
+Qed.
+
+Lemma grun_monitor p m g tr pos v : grun m g tr = Some v -> monitor_from p m pos tr = None.
+Proof.
+  revert m g pos; induction tr as [|[o r] t IH]; intros m g pos H; simpl in *; auto.
+  destruct (mstep m o r) as [[|tag] m']; [|discriminate]. eapply IH; eauto.
+Qed.
+
+(* T1: the monitor (every clause, hence the clauses of each property) accepts every trace of the model *)
+Theorem monitor_accepts_model (p : prop) (cf : cfg) (ops : list op) :
+  monitor p cf (run cf (init cf) ops) = None.
+Proof.
+  destruct (grun_model cf (init cf) (minit cf) g0 ops (Rel_init cf)) as (m' & g' & G & _).
+  unfold monitor. eapply grun_monitor; eauto.
+Qed.
+
+(* ===================================================================== Part C: closed loop *)
+
+Definition nlen (A : Type) (l : list A) : N := N.of_nat (length l).
+Arguments nlen {A} l.
+
+(* receive direction: central's (sn, current PDU, completed PDUs) vs. the peripheral's
+   (nesn, receive FIFO) and history *)
+Definition SIrx (c : central) (m : mon) (g : ghost) : Prop :=
+  g_acc g = c_done c ++ rx_in_flight c m /\
+  (Bool.eqb (m_nesn m) (c_sn c) = false -> c_cur c <> None) /\
+  (forall p, c_cur c = Some p -> fst p < 4) /\
+  map pkey (g_freed g ++ m_rxq m) = filter storable (g_acc g) /\
+  g_rxc g = nlen (filter counted (g_acc g)).
+
+(* transmit direction *)
+Definition SItx (c : central) (m : mon) (g : ghost) : Prop :=
+  m_txdead m = false /\
+  match m_cur m with
+  | CNone => c_nesn c = m_sn m
+  | CEmpty s => m_sn m = negb s
+  | CData s => m_sn m = negb s /\ m_txq m <> []
+  end /\
+  Forall (fun p => counted p = true) (m_txq m) /\
+  filter counted (c_acc c) = g_popped g ++ tx_in_flight c m /\
+  g_comm g = g_popped g ++ m_txq m /\
+  g_txc g = nlen (g_popped g).
+
+Definition SI (c : central) (m : mon) (g : ghost) : Prop := SIrx c m g /\ SItx c m g.
+
+Lemma SI_init cf : SI cen_init (minit cf) g0.
+Proof.
+  split.
+  - unfold SIrx, rx_in_flight; simpl. repeat split; auto; try discriminate.
+  - unfold SItx, tx_in_flight; simpl. repeat split; auto.
+Qed.
+
+(* the header the central sends *)
+Lemma cen_hl_facts c p md :
+  fst p < 4 ->
+  cen_hl c p md < 256 /\ has (cen_hl c p md) nesn_flag = c_nesn c /\ has (cen_hl c p md) sn_flag = c_sn c
+  /\ llid (cen_hl c p md) = fst p.
+Proof.
+  intros H. unfold cen_hl.
+  assert (E : fst p = 0 \/ fst p = 1 \/ fst p = 2 \/ fst p = 3) by lia.
+  destruct E as [E|[E|[E|E]]]; rewrite E; destruct (c_nesn c), (c_sn c), md; vm_compute; auto.
+Qed.
+
+Lemma filter_app_one (A : Type) (f : A -> bool) l x :
+  filter f (l ++ [x]) = filter f l ++ (if f x then [x] else []).
+Proof. rewrite filter_app. simpl. destruct (f x); auto. Qed.
+
+Lemma nlen_app_one (A : Type) (l : list A) x : nlen (l ++ [x]) = nlen l + 1.
+Proof. unfold nlen. rewrite app_length. simpl. lia. Qed.
+
+(* ---- receive direction ---- *)
+
+(* the central takes the next PDU *)
+Lemma SIrx_load c m g fresh :
+  SIrx c m g -> cpdu_ok fresh = true -> SIrx (cen_load c fresh) m g /\ c_cur (cen_load c fresh) <> None.
+Proof.
+  intros (A & B & C & D & E) F. unfold cen_load. destruct (c_cur c) as [p|] eqn:Cur.
+  - split; [|congruence]. unfold SIrx. rewrite Cur. auto.
+  - split; [|simpl; congruence].
+    assert (N : Bool.eqb (m_nesn m) (c_sn c) = true).
+    { destruct (Bool.eqb (m_nesn m) (c_sn c)) eqn:X; auto. exfalso. apply B; auto. }
+    unfold SIrx, rx_in_flight in *. simpl. rewrite N in *. repeat split; auto.
+    + intros; discriminate.
+    + intros p P. inversion P; subst. apply N.ltb_lt. exact F.
+Qed.
+
+(* received(): the acceptance decision for the central's current PDU *)
+Lemma SIrx_accept c m g p md m2 erc :
+  SIrx c m g -> c_cur c = Some p ->
+  m_accept m (cen_hl c p md) (snd p) = (m2, erc) ->
+  let g2 := if Bool.eqb (has (cen_hl c p md) sn_flag) (m_nesn m)
+            then gw_acc g (g_acc g ++ [(llid (cen_hl c p md), snd p)]) else g in
+  SIrx c m2 (g_count g2 erc 0) /\ m_txq m2 = m_txq m /\ m_cur m2 = m_cur m /\ m_sn m2 = m_sn m /\ m_txdead m2 = m_txdead m.
+Proof.
+  intros (A & B & C & D & E) Cur M. pose proof (C p Cur) as P4.
+  destruct (cen_hl_facts c p md P4) as (H1 & H2 & H3 & H4).
+  unfold m_accept in M. rewrite H3, H4 in *.
+  destruct (Bool.eqb (c_sn c) (m_nesn m)) eqn:New.
+  - (* new PDU *)
+    assert (N1 : Bool.eqb (m_nesn m) (c_sn c) = true) by (rewrite eqb_true_iff in *; congruence).
+    assert (N2 : Bool.eqb (negb (m_nesn m)) (c_sn c) = false) by (destruct (m_nesn m), (c_sn c); simpl in *; congruence).
+    unfold SIrx, rx_in_flight in A. rewrite N1 in A. rewrite app_nil_r in A.
+    assert (PK : pkey (mkhdr (cen_hl c p md) (snd p), snd p) = p).
+    { unfold pkey. simpl. unfold llid. rewrite mkhdr_land by auto. fold (llid (cen_hl c p md)). rewrite H4.
+      destruct p; reflexivity. }
+    assert (PP : (fst p, snd p) = p) by (destruct p; reflexivity).
+    destruct (negb (blen (snd p) =? 0)) eqn:NE; destruct (negb (fst p =? 0)) eqn:L0; simpl in M;
+      inversion M; subst; clear M; (split; [|simpl; auto]);
+      unfold SIrx, rx_in_flight, cen_pdu; simpl; rewrite Cur, N2, PP;
+      (split; [rewrite A; reflexivity|]); (split; [congruence|]); (split; [intros q Q; inversion Q; subst; exact P4|]).
+    + assert (S1 : storable p = true) by (unfold storable; rewrite NE, L0; reflexivity).
+      assert (S2 : counted p = true) by (unfold counted; rewrite NE; reflexivity).
+      split.
+      * rewrite app_assoc, map_app, D. simpl. rewrite PK, filter_app_one, S1. reflexivity.
+      * rewrite filter_app_one, E, S2, nlen_app_one. reflexivity.
+    + assert (S1 : storable p = false) by (unfold storable; rewrite NE, L0; reflexivity).
+      assert (S2 : counted p = true) by (unfold counted; rewrite NE; reflexivity).
+      split.
+      * rewrite D, filter_app_one, S1, app_nil_r. reflexivity.
+      * rewrite filter_app_one, E, S2, nlen_app_one. reflexivity.
+    + assert (S1 : storable p = false) by (unfold storable; rewrite NE; reflexivity).
+      assert (S2 : counted p = false) by (unfold counted; rewrite NE; reflexivity).
+      split.
+      * rewrite D, filter_app_one, S1, app_nil_r. reflexivity.
+      * rewrite filter_app_one, E, S2, app_nil_r. lia.
+    + assert (S1 : storable p = false) by (unfold storable; rewrite NE; reflexivity).
+      assert (S2 : counted p = false) by (unfold counted; rewrite NE; reflexivity).
+      split.
+      * rewrite D, filter_app_one, S1, app_nil_r. reflexivity.
+      * rewrite filter_app_one, E, S2, app_nil_r. lia.
+  - (* retransmission *)
+    inversion M; subst; clear M. simpl. split; auto.
+    unfold SIrx. simpl. repeat split; auto. lia.
+Qed.
+
+(* the central sees the peripheral's NESN *)
+Definition cen_ack (c : central) (b : bool) : central :=
+  if Bool.eqb b (c_sn c) then c
+  else mkCen (negb (c_sn c)) (c_nesn c) None (c_done c ++ [cen_pdu c]) (c_acc c).
+Definition cen_new (c : central) (h : N) (body : list N) : central :=
+  if Bool.eqb (has h sn_flag) (c_nesn c)
+  then mkCen (c_sn c) (negb (c_nesn c)) (c_cur c) (c_done c) (c_acc c ++ [(llid h, body)])
+  else c.
+Lemma cen_recv_split c h body : cen_recv c h body = cen_new (cen_ack c (has h nesn_flag)) h body.
+Proof. reflexivity. Qed.
+
+Lemma SIrx_cen_ack c m g :
+  SIrx c m g -> c_cur c <> None -> SIrx (cen_ack c (m_nesn m)) m g.
+Proof.
+  intros (A & B & C & D & E) Cur. unfold cen_ack.
+  destruct (Bool.eqb (m_nesn m) (c_sn c)) eqn:X.
+  - unfold SIrx. auto.
+  - unfold SIrx, rx_in_flight in *. simpl. rewrite X in A.
+    assert (Y : Bool.eqb (m_nesn m) (negb (c_sn c)) = true) by (destruct (m_nesn m), (c_sn c); simpl in *; congruence).
+    rewrite Y. repeat split; auto.
+    + rewrite app_nil_r. exact A.
+    + intros; discriminate.
+    + intros; discriminate.
+Qed.
+
+(* frame: only the receive fields of central, monitor and history matter *)
+Lemma SIrx_frame c m g c' m' g' :
+  SIrx c m g -> c_sn c' = c_sn c -> c_cur c' = c_cur c -> c_done c' = c_done c ->
+  m_nesn m' = m_nesn m -> m_rxq m' = m_rxq m ->
+  g_acc g' = g_acc g -> g_freed g' = g_freed g -> g_rxc g' = g_rxc g -> SIrx c' m' g'.
+Proof.
+  unfold SIrx, rx_in_flight, cen_pdu. intros H A B C D E F G I. rewrite A, B, C, D, E, F, G, I. exact H.
+Qed.
+
+Lemma SItx_frame c m g c' m' g' :
+  SItx c m g -> c_nesn c' = c_nesn c -> c_acc c' = c_acc c ->
+  m_txq m' = m_txq m -> m_cur m' = m_cur m -> m_sn m' = m_sn m -> m_txdead m' = m_txdead m ->
+  g_comm g' = g_comm g -> g_popped g' = g_popped g -> g_txc g' = g_txc g -> SItx c' m' g'.
+Proof.
+  unfold SItx, tx_in_flight. intros H A B C D E F G I J. rewrite A, B, C, D, E, F, G, I, J. exact H.
 Qed.
